@@ -27,7 +27,7 @@
 import CxxModel.Cost
 import CxxModel.Gen.LexRules
 import CxxModel.Theorems.Stream
-import CxxModel.Theorems.LexTotal
+import CxxModel.GenCfg
 namespace Cxx
 
 def repBodiesNonNull : Re → Bool
@@ -79,12 +79,10 @@ theorem C07_collectors_linear (env : Env) {σ α : Type} (step : σ → CTok →
   exact ⟨ts, cts, hy, hr, hl, by rw [← hl]; exact hr.length_pos⟩
 
 
-def genCfg7 : LexCfg := { rules := Gen.rules, literals := Gen.literals, ignore := Gen.ignore, keywords := Gen.keywords }
-
-theorem C07_rules_make_progress : RulesProgress genCfg7 = true := by decide +kernel
+theorem C07_rules_make_progress : RulesProgress genLexCfg = true := gen_rules_progress
 
 theorem C07_lexer_total (st : LexState) :
-    plyTokenF genCfg7 st ≠ .opaque ∧ (∀ st', plyTokenF genCfg7 st = .eof st' → st'.rest = []) :=
-  plyTokenF_total genCfg7 C07_rules_make_progress st
+    plyTokenF genLexCfg st ≠ .opaque ∧ (∀ st', plyTokenF genLexCfg st = .eof st' → st'.rest = []) :=
+  plyTokenF_total genLexCfg C07_rules_make_progress st
 
 end Cxx
